@@ -13,8 +13,7 @@ class MapFillerQubit:
         return wf_qubit(qubit)
 
     def raises_JaqalError(self, qubit):
-        return (chain_bad(qubit._alias_from, ival(qubit._alias_index))
-                or (size_known(root(qubit._alias_from)) and phys(qubit._alias_from, ival(qubit._alias_index)) < 0))
+        return chain_bad(qubit._alias_from, ival(qubit._alias_index))
 
     raises_only = ("JaqalError",)
 
